@@ -76,7 +76,9 @@ TRUSTED = ['the raw file layer: io.FileIO/BufferedWriter/TextIOWrapper/gzip.Gzip
            'the gzip / buffering layer is a parameter of the model: the list of raw writes it emits (and re-emits '
            'after a fault) is taken from the real run',
            'POSIX: write appends atomically per call, ftruncate/unlink/open(O_CREAT|O_TRUNC) are atomic, no power loss']
-ASSUMPTIONS = ['the model treats the logging calls inside write_record (debug "Writing WARC record", info "Rolling back '
+ASSUMPTIONS = ['observation point: the files are read after the exception object of a failed append has been dropped and '
+               'gc.collect() has run (and at the end of every life), not at the moment the error is raised',
+               'the model treats the logging calls inside write_record (debug "Writing WARC record", info "Rolling back '
                'file ...") as non-raising no-ops; the harness runs every single fault under both logging configurations '
                '(root logger at DEBUG with a formatting handler / at WARNING) and lives with log=True, and requires that what '
                'comes out is an OSError (oracle fault-changed-exception)',
@@ -427,6 +429,15 @@ def exc_name(e):
     return None if e is None else type(e).__name__
 
 
+_LAST_EARLY = {}
+
+
+def late_collect():
+    import gc
+    gc.collect()
+    gc.freeze()     # survivors (results kept by the sweep) need not be scanned again by the next call
+
+
 # ------------------------------------------------------------------ the real side
 def _mods():
     from wpull.warc.recorder import WARCRecorder, WARCRecorderParams
@@ -539,16 +550,22 @@ def sched_of(case):
 def _run_inproc(env, record, schedule):
     inj = Injector(env.warc, schedule)
     inj.bufsize = env.bufsize
-    status, exc = 'done', None
+    status, exc, early = 'done', None, None
     try:
         with patched(inj):
             try:
                 env.rec.write_record(record)
             except Exception as e:      # an OSError is expected; anything else is reported by the oracle
-                status, exc = 'raised', e
+                status, exc = 'raised', [exc_name(e), isinstance(e, OSError)]
+                early = env.state()     # what is on disk while the exception object is still alive
+            # The exception object (traceback, frames, whatever file objects those frames still hold) is
+            # dropped here; collect NOW, with the wrappers still recording: the restored state must hold at
+            # every LATER observation point, not only at the moment the error is raised.
+            late_collect()
     except Die:
         status = 'died'
-    return status, inj.trace, (None if exc is None else [exc_name(exc), isinstance(exc, OSError)])
+    _LAST_EARLY['v'] = early
+    return status, inj.trace, exc
 
 
 def _dump(path, status, trace, exc=None):
@@ -581,6 +598,7 @@ def _run_child(env, record, schedule):
                     env.rec.write_record(record)
                 except Exception as e:
                     status, exc = 'raised', [exc_name(e), isinstance(e, OSError)]
+                late_collect()
             _dump(out, status, inj.trace, exc)
             code = 0
         except BaseException:
@@ -613,9 +631,11 @@ def run_real(case):
     with log_config(case.get('logging')):
         if any(a[0] == 'die' for a in schedule.values()) and case.get('kill_mode', 'fork') == 'fork':
             status, trace, exc = _run_child(env, record, schedule)
+            early = None
         else:
             status, trace, exc = _run_inproc(env, record, schedule)
-    archive, journal = env.state()
+            early = _LAST_EARLY.pop('v', None)
+    archive, journal = env.state()      # read AFTER the exception was dropped and the collector ran
     restart_refused = None
     if status == 'died' and journal is not None:
         # a new run on this directory must refuse to start (the constructor raises before it writes anything)
@@ -625,7 +645,7 @@ def run_real(case):
             restart_refused = False
         except OSError:
             restart_refused = True
-    return {'exc': exc, 'restart_refused': restart_refused, 'before': before, 'record_bytes': record_bytes, 'status': status, 'trace': trace,
+    return {'early': early, 'exc': exc, 'restart_refused': restart_refused, 'before': before, 'record_bytes': record_bytes, 'status': status, 'trace': trace,
             'archive': archive, 'journal': journal, 'env': env}
 
 
@@ -774,7 +794,13 @@ def check_oracles(ctx, case, r):
         if second_phase:
             ctx.tag('excluded:fault-in-rollback-or-unlink')
             return
-        if a != b0:
+        early = r.get('early')
+        if a != b0 and early is not None and (early[0] or b'') == b0:
+            ctx.fail('not-restored-after-exception-dropped', 'write_record', pc,
+                     'the archive was restored (%d bytes) while the %s was alive, but once the exception object had been '
+                     'dropped and the collector had run it holds %d bytes: something kept by the failed append wrote later'
+                     % (len(b0), (r.get('exc') or ['exception'])[0], len(a)))
+        elif a != b0:
             ctx.fail('not-restored', 'write_record', pc,
                      '%s came out of write_record and the archive (%d bytes) is not the %d bytes it held before'
                      % ((r.get('exc') or ['an exception'])[0], len(a), len(b0)))
@@ -1070,6 +1096,7 @@ def _life_run(d, tmp, case, die_hook=None):
     handlers, level = list(root.handlers), root.level
     status = 'done'
     inj.exc = None
+    inj.early = None
     try:
         with log_config(case.get('logging')), patched(inj):
             try:
@@ -1077,6 +1104,9 @@ def _life_run(d, tmp, case, die_hook=None):
             except Exception as e:
                 status = 'raised'
                 inj.exc = [exc_name(e), isinstance(e, OSError)]
+                if die_hook is None:
+                    inj.early = dir_snapshot(d)     # while the exception object is alive
+            late_collect()      # exception dropped / life over: anything still held is finalised before the files are read
     except Die:
         status = 'died'
     finally:
@@ -1139,11 +1169,13 @@ def run_life_real(case):
             with builtins.open(out) as f:
                 dd = json.load(f)
             status, names, exc = dd['status'], dd['names'], dd.get('exc')
+            early = None
             trace = [[k, r, (bytes.fromhex(a) if isb else a), o] for k, r, a, isb, o in dd['trace']]
             snaps = {k: {n: bytes.fromhex(v) for n, v in sn.items()} for k, sn in dd['snaps'].items()}
         else:
             inj, status = _life_run(d, tmp, case)
             trace, names, snaps, exc = inj.trace, inj.names, inj.snaps, inj.exc
+            early = inj.early
         final = dir_snapshot(d)
         restart_refused = None
         if any(n.endswith('-wpullinc') for n in final):
@@ -1155,7 +1187,7 @@ def run_life_real(case):
             except OSError:
                 restart_refused = True
         return {'status': status, 'trace': trace, 'names': names, 'snaps': snaps, 'init': init, 'final': final,
-                'restart_refused': restart_refused, 'exc': exc}
+                'restart_refused': restart_refused, 'exc': exc, 'early': early}
     finally:
         shutil.rmtree(d, ignore_errors=True)
         shutil.rmtree(tmp, ignore_errors=True)
@@ -1277,7 +1309,12 @@ def check_life_oracles(ctx, case, r, steps):
         if any(ph in ('r', 'u') and e[3].startswith('fail') for e, ph in zip(body, phases(body))):
             ctx.tag('excluded:fault-in-rollback-or-unlink')
             return
-        if a != b0:
+        early = r.get('early')
+        if a != b0 and early is not None and (early.get(T) or b'') == b0:
+            fail('not-restored-after-exception-dropped', 'archive %r was restored (%d bytes) while the %s was alive, but once '
+                 'the exception object had been dropped and the collector had run it holds %d bytes'
+                 % (T, len(b0), (r.get('exc') or ['exception'])[0], len(a)))
+        elif a != b0:
             fail('not-restored', '%s came out and archive %r (%d bytes) is not the %d bytes it held before this append'
                  % ((r.get('exc') or ['an exception'])[0], T, len(a), len(b0)))
         elif jr is not None:
@@ -1519,6 +1556,9 @@ def configs(thorough):
 
 def run(ctx):
     thorough = ctx.tier == 'thorough'
+    import gc
+    gc.collect()
+    gc.freeze()         # everything imported so far is out of the collector's way: late_collect() stays cheap
     try:
         for item in load_corpus(ctx):
             case = item['case'] if 'case' in item else item
@@ -1548,6 +1588,7 @@ def run(ctx):
         ctx.exhaustive = False
     finally:
         close_envs()
+        gc.unfreeze()
 
 
 def search(ctx):
